@@ -40,7 +40,7 @@ NOTES = {
  "S2-C16-exact-funding-above-cap": ("single-note exact-funding guard loses its upper bound", "the whole balance in one note worth exactly a 1-2-5 value above 10000 ZEC plus the transfer buffer", "no"),
 }
 rows = []
-for d in sorted(glob.glob(os.path.join(ROOT, "seeded", "S-*"))):
+for d in sorted(glob.glob(os.path.join(ROOT, "seeded", "S*-*"))):
     mp = os.path.join(d, "meta.json")
     if not os.path.exists(mp):
         continue
